@@ -330,6 +330,8 @@ pub fn run(ctx: &Ctx) {
     let concat: Vec<PoolName> = ADV.iter().filter(|p| p.category == "concat").cloned().collect();
     sweep(ctx, "concatenation pool, 3-subsets, <=3 nodes, <=1 decorated, root named from the subset", &concat, 3,
           &TreeParams { min_nodes: 1, max_nodes: 3, max_decorated: 1, root_from_subset: true, shard: (0, 1) }, true);
+    sweep(ctx, "concatenation pool, 3-subsets, 4 nodes, undecorated", &concat, 3,
+          &TreeParams { min_nodes: 4, max_nodes: 4, max_decorated: 0, root_from_subset: false, shard: (0, 1) }, true);
     sweep(ctx, "suffix-collision pool, 3-subsets, <=4 nodes, undecorated", &suffix_pool(), 3,
           &TreeParams { min_nodes: 2, max_nodes: 4, max_decorated: 0, root_from_subset: false, shard: (0, 1) }, true);
     match ctx.tier {
